@@ -1,6 +1,7 @@
 // C15 (a): string comparison primitives and the StringView operator family vs the lexicographic order
 #include "StringUtils.hpp"
 #include "StringView.hpp"
+#include "String.hpp"
 #include "vf.h"
 using namespace Qentem;
 #ifndef N
@@ -64,5 +65,47 @@ extern "C" void h_view_ops() {   // StringView operator family
     vf_assert((x != y) == (r != 0), 4);
     vf_assert((x <= y) == (r <= 0), 5);
     vf_assert((x >= y) == (r >= 0), 6);
+    vf_witness();
+}
+
+// the overloads that take a NUL-terminated string on the right: b holds lb non-NUL units followed by the terminator
+static unsigned make_cstr(C *bz) {
+    unsigned lb = vf_u32(); vf_assume(lb <= N);
+    for (unsigned i = 0; i < N + 1; i++) { C u = vf_any<C>(); if (i < lb) { vf_assume(u != C{0}); bz[i] = u; } else bz[i] = C{0}; }
+    return lb;
+}
+extern "C" void h_view_cstr() {   // StringView (op) const Char_T*
+    unsigned la = vf_u32(); vf_assume(la <= N);
+    const C *a = vf_buf<C>(la);
+    C bz[N + 1]; unsigned lb = make_cstr(bz);
+    StringView<C> x{a, la};
+    int r = ref_cmp(a, la, bz, lb);
+    vf_assert((x < bz) == (r < 0), 1);
+    vf_assert((x > bz) == (r > 0), 2);
+    vf_assert((x == bz) == (r == 0), 3);
+    vf_assert((x != bz) == (r != 0), 4);
+    vf_assert((x <= bz) == (r <= 0), 5);
+    vf_assert((x >= bz) == (r >= 0), 6);
+    vf_witness();
+}
+extern "C" void h_string_ops() {   // String (op) String and String (op) const Char_T*
+    unsigned la = vf_u32(); vf_assume(la <= N);
+    const C *a = vf_buf<C>(la);
+    C bz[N + 1]; unsigned lb = make_cstr(bz);
+    String<C> x{a, SizeT(la)}, y{static_cast<const C *>(bz), SizeT(lb)};   // (the non-const pointer overload ADOPTS the buffer)
+    int r = ref_cmp(a, la, bz, lb);
+    vf_assert((x < y) == (r < 0), 1);
+    vf_assert((x > y) == (r > 0), 2);
+    vf_assert((x == y) == (r == 0), 3);
+    vf_assert((x != y) == (r != 0), 4);
+    vf_assert((x <= y) == (r <= 0), 5);
+    vf_assert((x >= y) == (r >= 0), 6);
+    vf_assert((x < bz) == (r < 0), 11);
+    vf_assert((x > bz) == (r > 0), 12);
+    vf_assert((x == bz) == (r == 0), 13);
+    vf_assert((x != bz) == (r != 0), 14);
+    vf_assert((x <= bz) == (r <= 0), 15);
+    vf_assert((x >= bz) == (r >= 0), 16);
+    vf_assert(x.IsEqual(bz, SizeT(lb)) == (r == 0), 17);
     vf_witness();
 }
